@@ -1,4 +1,165 @@
-(* C18 — property theorems (in progress) *)
+(* C18 — property theorems.  This file contains only statements, each closed
+   by [exact] of a lemma from Proofs.v, and non-vacuity examples.
+
+   Reading guide.  [g] is a package graph (nodes numbered topologically, root
+   0), [sv] the string value of a string expression at a package (arbitrary),
+   [holds]/[sem_path] the declarative XPath-like semantics of predicates and
+   paths (Model.v, last section).  The model functions are transliterations of
+   pym/bob/pathspec.py and are compared with it on every run:
+     norm_path     LocationPath.__init__ rewriting
+     pred_back / path_back   <predicate>.evalBackward / LocationPath.evalBackward
+     eval_forward  LocationPath.evalForward   (nodes, valid) or the error raised
+     frn           PackageSet.__findResultNodes
+     query_tree    PackageSet.queryTreePath after parsing                      *)
 From Coq Require Import List NArith Bool Arith.
 Require Import BobV.C18.Model BobV.C18.Proofs.
 Import ListNotations.
+
+(* The worklist loops of the (direct-)descendant and ancestor axes compute
+   exactly the transitive closure of the (direct) dependency relation (this
+   includes "the fuel S (length g) is enough"). *)
+Theorem axis_closure_correct : forall g, wf_graph g -> forall ind ns m,
+  (In m (ax_desc g ind ns) <-> exists n, In n ns /\ tc (edge g ind) n m) /\
+  (In m (ax_anc g ind ns) <-> exists n, In n ns /\ tc (edge g ind) m n).
+Proof. exact axis_closure_correct_proof. Qed.
+
+(* Backward evaluation (used for every predicate) is the declarative meaning:
+   a predicate is computed as the set of packages at which it holds, a path as
+   the set of packages from which it selects something; absolute paths inside
+   predicates, negation and string tests included. *)
+Theorem eval_backward_correct : forall g sv, wf_graph g ->
+  (forall p n, In n (pred_back g sv p) <-> n < length g /\ holds g sv p n) /\
+  (forall q n, In n (path_back g sv q) <-> n < length g /\ exists m, sem_path g sv q n m).
+Proof. exact back_correct. Qed.
+
+(* Forward evaluation returns exactly the packages selected step by step from
+   the root; it raises only if that set is empty. *)
+Theorem eval_forward_correct : forall g sv, wf_graph g -> forall mode q,
+  match eval_forward g sv mode q with
+  | FOk ns _ => forall m, In m ns <-> sem_path g sv q root m
+  | _ => forall m, ~ sem_path g sv q root m
+  end.
+Proof. exact eval_forward_correct_proof. Qed.
+
+(* The rewriting done when a path is constructed ('//' expansion, removal of
+   '.', fusion into the descendant axis, also inside predicates) keeps the
+   meaning. *)
+Theorem normalize_sem : forall g sv q n m,
+  sem_path g sv (norm_path q) n m <-> sem_path g sv q n m.
+Proof. exact normalize_sem_proof. Qed.
+
+(* queryTreePath: every reported (stack, package) is a real path from the root
+   to a package that the query selects ... *)
+Theorem result_paths_sound : forall g sv, wf_graph g -> forall mode q qa found,
+  query_tree g sv mode q qa = QOk found ->
+  forall stk m, In (stk, m) found -> real_path g root stk m /\ sem_path g sv q root m.
+Proof. exact query_tree_sound_proof. Qed.
+
+(* ... and every selected package is reported, with and without queryAll
+   (the set of packages returned equals the declarative set). *)
+Theorem result_paths_complete : forall g sv, wf_graph g -> forall mode q qa found,
+  query_tree g sv mode q qa = QOk found ->
+  forall m, sem_path g sv q root m -> exists stk, In (stk, m) found.
+Proof. exact query_tree_complete_proof. Qed.
+
+(* Without queryAll every package is reported once. *)
+Theorem result_reported_once : forall g sv mode q found,
+  query_tree g sv mode q false = QOk found -> NoDup (map snd found).
+Proof. exact query_tree_once_proof. Qed.
+
+(* An error is raised only for queries that select nothing. *)
+Theorem error_only_when_empty : forall g sv, wf_graph g -> forall mode q qa,
+  query_tree g sv mode q qa = QNotFound \/ query_tree g sv mode q qa = QNoMatch ->
+  forall m, ~ sem_path g sv q root m.
+Proof. exact query_tree_error_proof. Qed.
+
+(* The invariant behind the reported paths: after evalForward every context
+   package is connected to the root by a path that stays inside 'valid' (this
+   is what __findIntermediateNodes and __findReachableSubset have to
+   guarantee), and reported stacks never leave 'valid'. *)
+Theorem result_paths_inside_valid : forall g sv, wf_graph g -> forall mode q,
+  match eval_forward g sv mode q with
+  | FOk ns valid =>
+      (forall m, In m ns -> exists stk, real_path g root stk m /\ forall x, In x stk -> In x valid) /\
+      (forall qa stk m, In (stk, m) (fst (frn g qa (S (length g)) root [] (valid, ns))) ->
+                        forall x, In x stk -> In x valid)
+  | _ => True
+  end.
+Proof. exact inside_valid_proof. Qed.
+
+(* Empty results: nullset never raises; nullfail never returns an empty set;
+   nullglob never raises "matched no packages", and for a query without
+   wildcard, predicate and multi-hop axis it never returns an empty set
+   (such a query fails with "not found" instead). *)
+Theorem empty_mode_table : forall g sv q,
+  (exists ns v, eval_forward g sv NullSet q = FOk ns v) /\
+  (forall ns v, eval_forward g sv NullFail q = FOk ns v -> ns <> []) /\
+  (forall k, eval_forward g sv NullGlob q <> FNoMatch k) /\
+  (simple_path q = true -> forall ns v, eval_forward g sv NullGlob q = FOk ns v -> ns <> []).
+Proof. exact empty_mode_table_proof. Qed.
+
+(* Name patterns: only the star is special. *)
+Theorem glob_match_spec : forall pat s, glob pat s = true <-> gmatch pat s.
+Proof. exact glob_match_spec_proof. Qed.
+
+(* ------------------------------------------------------------------ non-vacuity: a concrete graph
+        root -> a1 -> b -> a2        names: 0 "", 1 "a1", 2 "b", 3 "lib", 4 "a2"
+        root -> lib -> a2            a1 -> lib is an indirect (provided) dependency
+        a1 ..> lib                                                                  *)
+Definition g_ex : graph := [
+  {| n_name := []%N;                   n_kids := [(1, true); (3, true)];  n_env := [] |};
+  {| n_name := [97; 49]%N;             n_kids := [(2, true); (3, false)]; n_env := [([76]%N, [71; 80; 76]%N)] |};
+  {| n_name := [98]%N;                 n_kids := [(4, true)];             n_env := [] |};
+  {| n_name := [108; 105; 98]%N;       n_kids := [(4, true)];             n_env := [([76]%N, [77; 73; 84]%N)] |};
+  {| n_name := [97; 50]%N;             n_kids := [];                      n_env := [([76]%N, [71; 80; 76]%N)] |} ].
+
+Example g_ex_wellformed : wf_graph g_ex.
+Proof. apply wf_graphb_sound. vm_compute. reflexivity. Qed.
+
+(* //a*  : a2 is only reachable through another match (a1) and a non-matching
+   package (b); all four paths are reported with queryAll, one per package without *)
+Example result_paths_nonvacuous :
+  let q := PCons true AChild [97; 42]%N PNone PNil in
+  query_tree g_ex (sval_impl g_ex) NullGlob q true =
+    QOk [([1], 1); ([1; 2; 4], 4); ([1; 3; 4], 4); ([3; 4], 4)] /\
+  query_tree g_ex (sval_impl g_ex) NullGlob q false = QOk [([1], 1); ([1; 2; 4], 4)] /\
+  sem_path g_ex (sval_impl g_ex) q root 4.
+Proof.
+  split; [vm_compute; reflexivity|]. split; [vm_compute; reflexivity|].
+  pose proof (eval_forward_correct g_ex (sval_impl g_ex) g_ex_wellformed NullSet
+                (PCons true AChild [97; 42]%N PNone PNil)) as H.
+  remember (eval_forward g_ex (sval_impl g_ex) NullSet (PCons true AChild [97; 42]%N PNone PNil)) as r eqn:E.
+  vm_compute in E. subst r. apply (proj1 (H 4)). vm_compute. auto.
+Qed.
+
+(* direct-descendant excludes the provided edge; a nested predicate with an
+   absolute path, negation and a string comparison:
+       //*[ !(b) && /a1/lib && "${L}" == 'GPL' ]      selects a2 only *)
+Example eval_backward_nonvacuous :
+  let p := PAnd (PAnd (PNot (PPath false (PCons false AChild [98]%N PNone PNil)))
+                      (PPath true (PCons false AChild [97; 49]%N PNone (PCons false AChild [108; 105; 98]%N PNone PNil))))
+                (PCmp OEq (SVar [76]%N) (SLit [71; 80; 76]%N)) in
+  pred_back g_ex (sval_impl g_ex) p = [4] /\
+  ax_desc g_ex false [1] = [2; 4] /\ ax_desc g_ex true [1] = [2; 3; 4] /\ ax_anc g_ex false [4] = [2; 3; 1; 0].
+Proof. vm_compute. auto. Qed.
+
+Example normalize_nonvacuous :    (* .//./lib//a2  ->  descendant@lib/descendant@a2 *)
+  norm_path (PCons false ASelf [42]%N PNone (PCons true ASelf [42]%N PNone
+            (PCons false AChild [108; 105; 98]%N PNone (PCons true AChild [97; 50]%N PNone PNil)))) =
+  PCons false ADesc [108; 105; 98]%N PNone (PCons false ADesc [97; 50]%N PNone PNil).
+Proof. vm_compute. reflexivity. Qed.
+
+Example empty_mode_nonvacuous :   (* zz : not found unless nullset;  z* : empty set, error only with nullfail *)
+  let zz := PCons false AChild [122; 122]%N PNone PNil in
+  let zs := PCons false AChild [122; 42]%N PNone PNil in
+  eval_forward g_ex (sval_impl g_ex) NullGlob zz = FNotFound 1 /\
+  eval_forward g_ex (sval_impl g_ex) NullSet zz = FOk [] [] /\
+  eval_forward g_ex (sval_impl g_ex) NullGlob zs = FOk [] [] /\
+  eval_forward g_ex (sval_impl g_ex) NullFail zs = FNoMatch 1 /\
+  simple_path zz = true /\ simple_path zs = false.
+Proof. vm_compute. auto 10. Qed.
+
+Example glob_nonvacuous :
+  glob [97; 42; 50]%N [97; 49; 50]%N = true /\ glob [42; 98; 42]%N [108; 105; 98]%N = true /\
+  glob [97; 42]%N [98; 97]%N = false /\ gmatch [97; 42]%N ([97]%N ++ [49; 50]%N).
+Proof. split; [|split; [|split]]; try (vm_compute; reflexivity). apply gm_char; [discriminate|]. apply (gm_star [] [49; 50]%N []). constructor. Qed.
